@@ -118,7 +118,9 @@ Record event := {
   ev_decision : nat;
   ev_config : list (nat * value);
   ev_clock : Q;
-  ev_fire : bool
+  ev_fire : bool;
+  ev_extra : option dict     (* what extra_results_composer(tuner) returns for this call; None = no composer,
+                                or the composer returned None *)
 }.
 
 Record cb_state := {
@@ -147,13 +149,24 @@ Definition set_time_fields (wallclock : bool) (clock : Q) (r : dict) : dict :=
     end
   else r.
 
-Definition make_row (wallclock : bool) (e : event) : dict :=
+(* result.update(extra_results): overwrite in place, else append, in the order of the extra dict *)
+Definition dict_update (extra : dict) (r : dict) : dict :=
+  fold_left (fun r kv => dset (fst kv) (snd kv) r) extra r.
+
+(* _append_extra_results: nothing happens without a composer or when it returns None *)
+Definition append_extra (extra : option dict) (r : dict) : dict :=
+  match extra with Some x => dict_update x r | None => r end.
+
+Definition make_row_base (wallclock : bool) (e : event) : dict :=
   let r := ev_result e in                                  (* copy.copy(result) *)
   let r := dset KDecision (VTok (ev_decision e)) r in
   let r := dset KStatus (VTok (ev_status e)) r in
   let r := dset KTrialId (VNum (Fin (inject_Z (ev_trial e)))) r in
   let r := add_config (ev_config e) r in
   set_time_fields wallclock (ev_clock e) r.
+
+Definition make_row (wallclock : bool) (e : event) : dict :=
+  append_extra (ev_extra e) (make_row_base wallclock e).
 
 Definition cb_store (s : cb_state) : cb_state :=
   {| cb_results := cb_results s; cb_started := cb_started s; cb_wallclock := cb_wallclock s;
@@ -493,7 +506,7 @@ End Csv.
    clock / store decision as in [event]. *)
 Record hitem := {
   hi_trial : Z; hi_result : dict; hi_status : nat; hi_config : list (nat * value);
-  hi_clock : Q; hi_fire : bool
+  hi_clock : Q; hi_fire : bool; hi_extra : option dict
 }.
 
 (* scheduler.on_trial_result is an oracle: decision token, whether it is STOP or PAUSE, and
@@ -503,7 +516,8 @@ Record answer := { an_decision : nat; an_stops : bool; an_exec_fails : bool }.
 
 Definition event_of (h : hitem) (a : answer) : event :=
   {| ev_trial := hi_trial h; ev_status := hi_status h; ev_result := hi_result h;
-     ev_decision := an_decision a; ev_config := hi_config h; ev_clock := hi_clock h; ev_fire := hi_fire h |}.
+     ev_decision := an_decision a; ev_config := hi_config h; ev_clock := hi_clock h; ev_fire := hi_fire h;
+     ev_extra := hi_extra h |}.
 
 (* Tuner._update_running_trials, first loop: `if trial_id not in done_trials`: results of a
    trial which follow a STOP / PAUSE decision in the same batch are not delivered.
@@ -619,3 +633,33 @@ Definition run_delivered (answers : list answer) (steps : list step) : list even
   map fst (fst (fst (run_trace answers steps))).
 Definition run_history (answers : list answer) (steps : list step) : list (list Z * list (Z * dict)) :=
   snd (fst (run_trace answers steps)).
+
+(* ======================================================================== *)
+(* ONE Tuner object run several times (run(); larger stop criterion; run()) *)
+(* ======================================================================== *)
+(* The callbacks and the TuningStatus belong to the Tuner object: the next run() calls
+   on_tuning_start on the SAME StoreResultsCallback (rows kept) and keeps the SAME
+   TuningStatus (`if self.tuning_status is None` guard).  One leg = one call of run(). *)
+Record leg := { lg_answers : list answer; lg_steps : list step; lg_fails : fin_step -> bool }.
+
+Definition tuner_leg (st : run_state) (l : leg) : run_state * bool * list fin_step :=
+  let st0 := {| rs_cb := cb_on_tuning_start (rs_cb st); rs_ts := rs_ts st |} in
+  let '(st1, raised) := run_body st0 (lg_answers l) (lg_steps l) in
+  let '(st2, raised', tr) := run_finally (lg_fails l) st1 finally_block in
+  (st2, raised || raised', tr).
+
+Fixpoint tuner_legs (st : run_state) (legs : list leg) : run_state :=
+  match legs with
+  | [] => st
+  | l :: rest => tuner_legs (fst (fst (tuner_leg st l))) rest
+  end.
+
+(* the Tuner object before its first run *)
+Definition tuner_new (add_wallclock_time : bool) (old_disk : option (list dict)) : run_state :=
+  {| rs_cb := {| cb_results := []; cb_started := false; cb_wallclock := add_wallclock_time; cb_disk := old_disk |};
+     rs_ts := ts_init |}.
+
+Definition legs_delivered (legs : list leg) : list event :=
+  flat_map (fun l => run_delivered (lg_answers l) (lg_steps l)) legs.
+Definition legs_history (legs : list leg) : list (list Z * list (Z * dict)) :=
+  flat_map (fun l => run_history (lg_answers l) (lg_steps l)) legs.
